@@ -255,6 +255,10 @@ def std_stages(tier, seed, battery, closed=("split", "long"), kinds_random=None,
     # executions nobody here designed: the repository's own tests, unedited, under the call recorder; large trees
     # (235 886 words) are judged through key-sample projections. Quick: the first 1 500 calls of every tree.
     st.append(Stage("suite", "suite", "repository-tests", size, battery, max=(1500 if q else 0), proj=(3 if q else 6)))
+    # the values are the tree's to keep alive: pointer-carrying value types, forced collections between the calls
+    for k, vt in (("uint32", "ptr"), ("alpha/string", "string"), ("float64", "rich")) if q else (
+            ("uint32", "ptr"), ("alpha/string", "string"), ("float64", "rich"), ("int16", "bytes"), ("alpha/bytes", "ptr"), ("uint64", "string")):
+        st.append(Stage("gc", k, "random", size, battery, vt=vt, n=(2 if q else 6), len=(60 if q else 150)))
     for u in closed:
         for k in mk:
             # thorough closures have up to 2^13 states x ~40 operations: replay a seeded sample of 120 000 transitions per stage
@@ -492,8 +496,10 @@ def check_C15(work, prop, tier, seed, t0):
         for s in stages:
             if s.typ == "model":
                 s.kw["cap"] = 6000
+    import venv
     return tree_check(work, prop, tier, seed, t0, stages, PROP_INVS[prop], ["SearchOK"], RULE_TREE,
-                      model_props=["OverwriteKeepsShape", "FailedDeleteIsNoop"])
+                      model_props=["OverwriteKeepsShape", "FailedDeleteIsNoop"],
+                      extra_cov={"queries_transparent_model": [venv.env_model(work), venv.env_proof(work)]})
 
 
 def check_C08(work, prop, tier, seed, t0):
